@@ -1214,8 +1214,15 @@ func (c *compiler) Stmt(stmt ast.Stmt) {
 	case *ast.Pass:
 		// Do nothing
 	case *ast.Break:
-		l := c.loops.Top()
-		if l == nil {
+		// like compiler_in_loop: some enclosing block of this code object must be a loop
+		inLoop := false
+		for i := range c.loops {
+			if c.loops[i].Type == loopLoop {
+				inLoop = true
+				break
+			}
+		}
+		if !inLoop {
 			c.panicSyntaxErrorf(node, "'break' outside loop")
 		}
 		c.Op(vm.BREAK_LOOP)
